@@ -95,7 +95,8 @@ Fixpoint bwalk (dem : bool) (n : node) (st : bst) {struct n} : bst * list site :
     let '(s2, z) := match vs with [] => (s1, []) | _ => bwalk d t s1 end in
     (s2, x ++ y ++ z)
   | SAugAssign t v _ =>
-    let '(s1, a) := bwalk dem v st in
+    (* a lambda / namedtuple right-hand side is a definition for rattr (its reads are not demanded), as for = and := *)
+    let '(s1, a) := bwalk (dem && negb (definition_like_rhs v)) v st in
     let '(s2, b) := bwalk dem t s1 in (s2, a ++ b)
   | SDelete ts _ =>
     (* reads first (a plain `del x` reads nothing but is a site of x), then every plain name in the
